@@ -18,7 +18,7 @@ NATIVE = {
     "C06": ["oplog.open_js_layout", "bitfield.open", "bitfield.from_data", "e2e.js_layout_dump"],
     "C07": ["e2e.torn_writes", "oplog.open_js_layout"],
     "C08": ["bitfield.ranges", "bitfield.open", "bitfield.from_data", "e2e.list_model_pages", "e2e.list_model"],
-    "C09": ["proofs.requests_no_panic", "proofs.arbitrary_proofs_refused"],
+    "C09": ["proofs.requests_no_panic", "proofs.requests_exhaustive_small", "proofs.arbitrary_proofs_refused"],
     "C10": ["e2e.fault_injection"],
     "C11": ["codec.wire_reference"],
     "C12": ["e2e.read_only_hygiene"],
